@@ -9,6 +9,7 @@ import clingo
 import core
 import corpus
 import corr_dependency
+import corr_semcond
 import leanio
 import oracle
 import semcheck
@@ -121,6 +122,13 @@ def run(ctx) -> int:
         for m in r["mismatches"][:20]:
             ctx.mismatches.append({"op": m.get("op"), "program": m.get("program"), "impl": str(m.get("impl"))[:400], "model": str(m.get("model"))[:400]})
         ctx.cov["samples"].append({"correspondence": "dependency ops", "evaluations": r["evaluations"], "nontrivial": r["nontrivial"]})
+        # the hypothesis of C20_domain_overapproximates (coveredCheck), evaluated on the programs the real passes produce
+        r2 = corr_semcond.run(random.Random(ctx.rng.random()), 50 if ctx.quick() else 1500, corpus_limit=15 if ctx.quick() else None)
+        ctx.cov["evaluations"] += r2["evaluations"]
+        ctx.cov["distinct_nontrivial"] += r2["nontrivial"]
+        ctx.cov["histogram"].update({"corr:theorem side conditions on real rewrites:" + k: v for k, v in r2["histogram"].items()})
+        for m in r2["mismatches"][:20]:
+            ctx.mismatches.append({"op": m.get("op"), "program": m.get("program"), "impl": str(m.get("impl"))[:400], "model": str(m.get("model"))[:400]})
     known = {f["id"]: f for f in core.findings_for(ctx)}
     semprop.replay_known(ctx)
     # ---- extension level on the real code
